@@ -152,10 +152,12 @@ impl SimState {
         self.muted.replace(on)
     }
 
+    /// Stack-depth probe: how much stack lies between the driver's call into gimli and this
+    /// seam call. Used by every seam the simulator owns (reader, sink writer).
     #[inline]
-    fn tick(&self, pos: impl FnOnce() -> u64) -> Option<FaultErr> {
+    pub fn probe_stack(&self) {
         if self.muted.get() {
-            return None;
+            return;
         }
         let probe = 0u8;
         let sp = &probe as *const u8 as usize;
@@ -171,6 +173,14 @@ impl SimState {
                 }
             }
         }
+    }
+
+    #[inline]
+    fn tick(&self, pos: impl FnOnce() -> u64) -> Option<FaultErr> {
+        if self.muted.get() {
+            return None;
+        }
+        self.probe_stack();
         let t = self.ops.get();
         self.ops.set(t + 1);
         if t >= self.budget_limit.get() {
